@@ -129,12 +129,12 @@ func lexerEOFRuleSSA(r *Run, rule string) {
 // ---- readChar (C03.R8, C15.R5) ---------------------------------------------------
 
 type readCharSum struct {
-	ok                           bool
-	why                          string
-	nulAtEnd, pinned, indexedOK  bool
-	advances                     bool // in range: position = old readPosition, readPosition+1, ch = input[readPosition]
-	lineOnLF, lineSomewhereElse  bool
-	aheadIdx, posIdx             int
+	ok                          bool
+	why                         string
+	nulAtEnd, pinned, indexedOK bool
+	advances                    bool // in range: position = old readPosition, readPosition+1, ch = input[readPosition]
+	lineOnLF, lineSomewhereElse bool
+	aheadIdx, posIdx            int
 }
 
 func (lm *lexSSAModel) readCharSummary() *readCharSum {
@@ -775,7 +775,7 @@ func textScannerRuleSSA(r *Run, rule string) {
 		for i, ev := range p.events {
 			evIndex[ev] = i
 		}
-		prevRead := -1        // event index of the previous read
+		prevRead := -1       // event index of the previous read
 		prevEscaped := false // the previous read stepped over a known non-'<' byte with '<' established behind it
 		for ei, ev := range p.events {
 			c, ok := ev.(*ssa.Call)
